@@ -2,7 +2,7 @@
 #include "json.hpp"
 namespace Qentem {
 #define QV_INST(C) \
-template SizeT JSONUtils::UnEscape<C, QV::GStream<C>>(const C *, SizeT, QV::GStream<C> &); \
+template SizeT JSONUtils::UnEscape<C, QV::GStream<C>>(const C *, SizeT, QV::GStream<C> &, bool *); \
 template void JSONUtils::Escape<C, QV::GStream<C>>(const C *, SizeT, QV::GStream<C> &); \
 template void Unicode::ToUTF<C, QV::GStream<C>>(SizeT32, QV::GStream<C> &); \
 template SizeT32 Digit::HexStringToNumber<SizeT32, C>(const C *, const SizeT) noexcept; \
